@@ -71,11 +71,13 @@ def remove (c : BC) (k : Nat) : Option (BC × Bool) :=
 def clear (c : BC) : BC :=
   { map := c.keys.foldl (fun m kw => m.set kw.1 none) c.map, keys := [], total := 0 }
 
-/-- the selection loop of `get_random` for a drawn `p`: subtract weights until `p ≤ 0`.
+/-- the selection loop of `get_random` for a drawn `p`: subtract weights until `p ≤ 0` at a key
+of positive weight (entries of weight 0 are skipped, also by a draw of exactly 0 — this is the
+code after the F12 fix, /repo commit b694648).
 Returns the index reached (`= keys.length` when the loop runs off the end). -/
 def pickLoop : List (Nat × Rat) → Rat → Nat → Nat
   | [], _, i => i
-  | kw :: t, p, i => if p - kw.2 ≤ 0 then i else pickLoop t (p - kw.2) (i + 1)
+  | kw :: t, p, i => if p - kw.2 ≤ 0 ∧ 0 < kw.2 then i else pickLoop t (p - kw.2) (i + 1)
 
 /-- index selected by the draw `p`; `none` = `self.keys[i]` out of bounds (panic) -/
 def pick (c : BC) (p : Rat) : Option Nat :=
